@@ -312,6 +312,9 @@ class GCPBatchExecutor(Executor):
                     )
                 )
                 self.pending_batch_tasks[existing_task.name] = job
+            else:
+                # Batch task is no longer available, submit the job anew.
+                batch_task_name = None
         if batch_task_name is None:
             self.arrayer.add_job(job)
 
